@@ -732,6 +732,31 @@ func BackwardSlice(v ssa.Value, o SliceOpts) map[ssa.Value]bool {
 				visit(b)
 			}
 			return
+		case *ssa.Alloc:
+			if o.Stores {
+				// composite literals and variadic argument arrays: what is stored into the cell or its elements
+				for _, ref := range *x.Referrers() {
+					switch a := ref.(type) {
+					case *ssa.Store:
+						if a.Addr == ssa.Value(x) {
+							visit(a.Val)
+						}
+					case *ssa.IndexAddr:
+						for _, r2 := range *a.Referrers() {
+							if st, ok := r2.(*ssa.Store); ok && st.Addr == ssa.Value(a) {
+								visit(st.Val)
+							}
+						}
+					case *ssa.FieldAddr:
+						for _, r2 := range *a.Referrers() {
+							if st, ok := r2.(*ssa.Store); ok && st.Addr == ssa.Value(a) {
+								visit(st.Val)
+							}
+						}
+					}
+				}
+			}
+			return
 		case *ssa.Call:
 			if o.ThroughCall != nil && o.ThroughCall(x) {
 				for _, a := range x.Call.Args {
